@@ -70,7 +70,7 @@ def get(ext, addpath):
     key = (ext, addpath)
     if key not in _S:
         s = session(ext, addpath)
-        _S[key] = c01.get_session(('c09', key), s) + (s,)
+        _S[key] = c01.get_session(('c09', key), s)[:3] + (s,)
     return _S[key]
 
 
